@@ -175,6 +175,22 @@ def problems():
             r = await asyncio.ensure_future(other())
             if r != [1, 2]:
                 out.append(f"consumed in another task outside any scope: got {r}")
+            # ... and consumed right here, outside any scope: afterwards this code still has no task group, a spawn is detached
+            async with ctx.scope("creator2", S(v=1)):
+                stream2 = ctx.stream(source, [3], False)
+            got2 = [x async for x in stream2]
+            from haiway.context.tasks import TaskGroupContext as _TGC
+            marker = object()
+            if got2 != [3] or _TGC._context.get(marker) is not marker:
+                out.append(f"after a stream was consumed outside any scope the consumer has a task group variable set "
+                           f"({_TGC._context.get(marker)!r}); items {got2}")
+            try:
+                async def job():
+                    return 42
+                if await ctx.spawn(job) != 42:
+                    out.append("a spawn after a stream consumed outside any scope did not run the function")
+            except BaseException as e:  # noqa
+                out.append(f"after a stream was consumed outside any scope ctx.spawn raises {e!r}")
         except Exception as e:  # noqa
             if check_ctx:
                 out.append(f"consuming the stream in another task outside any scope raised {e!r}")
